@@ -10,6 +10,12 @@ def run(ctx):
                           "s13_child_raises_caught", "s14_amo_exhaust", "s15_cb_uncaught", "s17_child_wfc_inside", "s19_wfcfail_then_wait",
                           {"nodes": [{"k": "step", "val": v} for v in (1, 2, 4)] + [{"k": "wait"}, {"k": "step", "val": 5}, {"k": "step", "val": 6}]},
                           {"nodes": [{"k": "child", "body": [{"k": "step", "val": 3}, {"k": "step", "val": 9}]}, {"k": "wait"}, {"k": "step", "val": 0}]},
+                          # every value of the richer domain (aware datetime with an offset, Decimal with trailing zeros, bytes / uuid /
+                          # date / tuple keys, big ints) is recorded BEFORE a suspension, so that it is always delivered again from its record
+                          {"nodes": [{"k": "step", "val": 5}, {"k": "step", "val": 4}, {"k": "wait"}, {"k": "step", "val": 6}, {"k": "step", "val": 9},
+                                     {"k": "wait"}, {"k": "step"}]},
+                          {"nodes": [{"k": "par", "branches": [[{"k": "step", "val": 5}], [{"k": "step", "val": 6}, {"k": "wait", "s": 1}]]}, {"k": "wait"},
+                                     {"k": "step", "val": 2}]},
                           # user code that modifies delivered values in place (lists, dicts), replayed several times in one process, and
                           # two positions with equal recorded values: no later delivery may see the modification
                           {"nodes": [{"k": "step", "val": 1, "mutate": True}, {"k": "wait"}, {"k": "step", "val": 1, "mutate": True}, {"k": "wait"},
